@@ -41,7 +41,7 @@ CHECKS.update({
 })
 
 CHECKS.update({
-    "C18": ("model_checking", "gateway", "TLC model checking of spec/Gateway.tla + TLC -simulate behaviours replayed into the real JobRouter through the real handle_controller/handle_fe with real serialised reports and JSON requests",
+    "C18": ("model_checking", "gateway", "TLC model checking of spec/Gateway.tla + TLC -simulate behaviours replayed into the real JobRouter through the real handle_controller/handle_fe with real serialised reports and JSON requests; the newest-report rule is proved inductive for every time stamp and value on the skeleton spec/GatewayNewest.tla (Apalache, negative control included), which spec/Gateway.tla refines (TLC)",
             "ProgressIsNewest, ResultsExact and faithful/erroring answers hold for every order and duplication of reports and requests within the bounds, and the real gateway follows TLC-generated behaviours step by step (progress, results, socket registration, every response, no exception escaping a handler, fresh job ids).",
             "Bounds: 2 jobs, 2 datasets, 2 payloads, <=4 timestamps; equal timestamps imply equal progress; sockets/poller/subprocess are harness fakes."),
 })
